@@ -24,7 +24,7 @@ func (c *Ctx) rulesC04(a *coreAnchors, la *LockAnalysis) {
 		sites, vals := c.allCallersOf(tgt)
 		for i, s := range sites {
 			key := fmt.Sprintf("%s called from %s%s", funcKey(tgt), funcKey(s.Fn), nth(i))
-			good := s.Fn == pq
+			good := s.Fn == pq || c.hostedBy(topFunc(s.Fn), pq)
 			msg := "must only be called from processQueue"
 			if good && la != nil {
 				hrs := la.heldAt(s.Instr)
@@ -340,7 +340,7 @@ func (c *Ctx) rulesC04(a *coreAnchors, la *LockAnalysis) {
 	c.floor("C04.rel", 3)
 
 	// C04.wq
-	nt := c.sitesIn(pq, funcKey(a.newTransition))
+	nt := c.standInSites(pq, funcKey(a.newTransition))
 	psub := c.fn(pm + ":Machine.processSubscriptions")
 	if len(nt) == 1 && psub != nil {
 		// processSubscriptions must reach ProcessWhenQueue
